@@ -18,6 +18,17 @@ EXPECTED_PRED = {
 }
 
 
+def pw_order(e):
+    """canonical (column, direction) of a peewee order_by argument"""
+    if isinstance(e, ast.UnaryOp) and isinstance(e.op, ast.USub):
+        return (norm(e.operand), "DESC")
+    if isinstance(e, ast.UnaryOp) and isinstance(e.op, ast.UAdd):
+        return (norm(e.operand), "ASC")
+    if isinstance(e, ast.Call) and isinstance(e.func, ast.Attribute) and e.func.attr in ("desc", "asc") and not e.args:
+        return (norm(e.func.value), e.func.attr.upper())
+    return (norm(e), "ASC")
+
+
 def _site(prog, method, kind=None, table=None):
     out = [s for s in sql_sites(prog) if s.fi.short == f"SqliteStorage.{method}" and (kind is None or s.stmt.kind == kind) and (table is None or s.stmt.table == table)]
     return out
@@ -175,7 +186,7 @@ def list_desc(e, fi, env=None, _depth=0):
     return None
 
 
-def flow_list(fi, var, upto=None):
+def flow_list(fi, var, upto=None, skip_window_steps=False):
     """Abstractly execute the straight-line rebinding steps of local `var` in source order
     (steps under `if` are optional refinements: they must be order-preserving).  -> (ListDesc, steps)"""
     steps = []
@@ -190,6 +201,8 @@ def flow_list(fi, var, upto=None):
             break
         env = {var: d} if d is not None else {}
         nd = list_desc(st.value, fi, env)
+        if nd is None and skip_window_steps and d is not None and any(g[1] for g in _enclosing_guards(st, fi)):
+            continue  # a step that only runs when a window edge is given: irrelevant to the window-less read
         if nd is None:
             return None, st
         conditional = _under_if(st, fi)
@@ -215,7 +228,7 @@ def _under_if(st, fi):
 # ORDER
 
 
-def order_rule(prog, rep, rule="ORDER"):
+def order_rule(prog, rep, rule="ORDER", windowless=False):
     rep.rule(rule, "get_events of every backend orders by the start instant, descending (optionally followed by a tie-break); the limit is applied after ordering and after the window filter")
     descs = {}
     # sqlite
@@ -234,9 +247,9 @@ def order_rule(prog, rep, rule="ORDER"):
         rep.undecided(rule, "PeeweeStorage.get_events", "EventModel.select", f"{len(chs)} chains")
     else:
         c = chs[0]
-        o = [norm(x) for x in c.order]
+        o = [pw_order(x) for x in c.order]
         descs["peewee"] = o
-        ok = bool(o) and o[0] in ("EventModel.timestamp.desc()", "-EventModel.timestamp")
+        ok = bool(o) and o[0] == ("EventModel.timestamp", "DESC")
         rep.check(ok, rule, c.fi.short, "order_by", f"order_by({o})", f"events are ordered by {o or 'nothing'}, not by timestamp descending", c.loc(), expected="order_by(EventModel.timestamp.desc())", found=str(o))
         _check_q_flow(prog, rep, c.fi, rule)
     # memory
@@ -254,7 +267,7 @@ def order_rule(prog, rep, rule="ORDER"):
             var = inner.id
         d, steps = (None, None)
         if var is not None:
-            d, steps = flow_list(fi, var)
+            d, steps = flow_list(fi, var, skip_window_steps=windowless)
         if d is None:
             rep.undecided(rule, fi.short, "list pipeline", f"cannot describe how `{var}` is built ({norm(steps) if isinstance(steps, ast.AST) else ''})", fi.loc(ret[0]))
         else:
@@ -358,12 +371,12 @@ def last_rule(prog, rep, rule="LAST", stream_assumption=False):
             gl = []
     if gl and gev:
         a, b = gl[0], gev[0]
-        oa, ob = [norm(x) for x in a.order], [norm(x) for x in b.order]
+        oa, ob = [pw_order(x) for x in a.order], [pw_order(x) for x in b.order]
         extra_w = [norm(w) for w in a.wheres if "bucket" not in norm(w)]
         ok = oa == ob and a.terminal in ("get", "first") and not extra_w
         rep.check(ok, rule, rfi.short, "target selection", f"_get_last: order_by({oa}).get() == get_events order", f"replace_last picks its target by order_by({oa}){'.where(' + extra_w[0] + ')' if extra_w else ''} but a limit-1 read orders by {ob}", a.loc(), expected=str(ob), found=str(oa))
         if stream_assumption:
-            okk = bool(oa) and oa[0] in ("EventModel.timestamp.desc()", "-EventModel.timestamp")
+            okk = bool(oa) and oa[0] == ("EventModel.timestamp", "DESC")
             rep.check(okk, rule + "-KEY", rfi.short, "order key", "keyed on the start instant", f"newest event keyed on {oa}", a.loc())
         recv = src_calls[0].targets[0].id if src_calls and isinstance(src_calls[0].targets[0], ast.Name) else "e"
         assigned = sorted({t.attr for n in walk_own(rfi.node) if isinstance(n, ast.Assign) for t in n.targets if isinstance(t, ast.Attribute) and isinstance(t.value, ast.Name) and t.value.id == recv})
@@ -389,7 +402,7 @@ def last_rule(prog, rep, rule="LAST", stream_assumption=False):
             if len(ret) == 1:
                 inner = ret[0].value.args[0] if isinstance(ret[0].value, ast.Call) and len(ret[0].value.args) == 1 else ret[0].value
                 if isinstance(inner, ast.Name):
-                    gd, _ = flow_list(gfi, inner.id)
+                    gd, _ = flow_list(gfi, inner.id, skip_window_steps=True)
             if gd is None:
                 rep.undecided(rule, gfi.short, "limit-1 read", "cannot describe get_events' list pipeline", gfi.loc())
             else:
